@@ -42,6 +42,14 @@ def main():
                 continue
             if re.match(r"^[a-z_][a-z0-9_]*$", fn.name) and fn.name not in COMMON and len(fn.name) >= 5:
                 names.add(fn.name)
+        if "--fields" in sys.argv:
+            # data members of the records defined in the anchor files instead of member functions
+            names = set()
+            for rname, rec in fb.records().items():
+                if rec.get("file") in files:
+                    for f in rec.get("fields", []):
+                        if f.get("name") and re.match(r"^_?[a-z][a-z0-9_]*$", f["name"]) and len(f["name"]) >= 5 and f["name"] not in COMMON:
+                            names.add(f["name"])
     finally:
         shutil.rmtree(d, ignore_errors=True)
     names = sorted(names)
@@ -75,7 +83,7 @@ def main():
     n2 = sum(1 for r in res if r[1] == 2)
     print("%s: %d names renamed one at a time: %d verdict unchanged, %d cannot-decide (name anchor or public API), %d FALSE ALARMS" % (
         prop, len(res), n0, n2, bad))
-    out = os.path.join(VERIF, "rename_sweep_results.json")
+    out = os.path.join(VERIF, "rename_sweep_results.json" if "--fields" not in sys.argv else "rename_sweep_fields_results.json")
     allr = json.load(open(out)) if os.path.exists(out) else {}
     allr[prop] = {"names": len(res), "unchanged": n0, "cannot_decide": sorted(r[0] for r in res if r[1] == 2),
                   "false_alarms": sorted(r[0] for r in res if r[1] == 1)}
